@@ -355,16 +355,14 @@ class Application(MutableMapping[str | AppKey[Any], Any]):
 
         Should be called after shutdown()
         """
-        if self.on_cleanup.frozen:
-            try:
-                await self.on_cleanup.send(self)
-            finally:
-                # The signal stops at the first receiver that raises: make sure
-                # the remaining contexts (e.g. of sub-applications) are exited.
-                await self._exit_started_contexts()
-        else:
-            # If an exception occurs in startup, ensure cleanup contexts are completed.
+        try:
+            # Exit the cleanup contexts in reverse order of startup, i.e. those
+            # of the sub-applications before the ones of their parent (also if
+            # an exception occurred in startup), rather than in signal order.
             await self._exit_started_contexts()
+        finally:
+            if self.on_cleanup.frozen:
+                await self.on_cleanup.send(self)
 
     async def _exit_started_contexts(self) -> None:
         """Exit the cleanup contexts that were entered, sub-applications first.
